@@ -278,17 +278,36 @@ def run_direct(cls_name, inputs, params, fuzzy_inputs=False, libs=CSV_LIBS):
         return Outcome(exc=e), program
 
 
-def run_cmd(cls_name, inputs, params, fuzzy_inputs=False, libs=CSV_LIBS, program=None, list_param=None, refs=None):
+def run_cmd(cls_name, inputs, params, fuzzy_inputs=False, libs=CSV_LIBS, program=None, list_param=None, refs=None, objects=None):
     """inputs: list of arrays (already built). Single-input commands take InFieldName, A/B commands
     take A and B, list commands take InFieldNames. Returns (Outcome, program, producers)."""
+    own_program = program is None
     program = program or new_program(libs)
     names = []
     _calls["n"] += 1
+    # objects: "own" / "lone" - callers that opt in get a quarter of their calls in object mode
+    as_objects = objects is not None and own_program and refs is None and _calls["n"] % 4 == 1
+    objs = []
     for i, a in enumerate(inputs):
         # producer names that differ only in letter case are distinct results
         nm = STANDIN_NAMES[i] if i < len(STANDIN_NAMES) else "In%d" % i
-        standin(program, nm, a, fuzzy=fuzzy_inputs)
+        if as_objects:
+            # the fields are handed over as command objects (finished, not registered in the program), while the program holds
+            # other fields under the very same names: the objects given are the inputs
+            import numpy
+            from mpilot.commands import Command
+            standin(program, nm, numpy.ma.array(numpy.zeros_like(numpy.ma.getdata(a))), fuzzy=fuzzy_inputs)
+            c = Command(nm, [], program=program if objects == "own" or _calls["n"] % 8 == 1 else None)
+            c.is_finished, c._result = True, a
+            if fuzzy_inputs:
+                c.is_fuzzy = True
+            objs.append(c)
+        else:
+            standin(program, nm, a, fuzzy=fuzzy_inputs)
         names.append(nm)
+    if as_objects:
+        names = objs
+        program._mpv_object_mode = True
     if refs is not None:
         names = [names[i] for i in refs]     # the same producer listed several times
     args = dict(params)
@@ -298,7 +317,7 @@ def run_cmd(cls_name, inputs, params, fuzzy_inputs=False, libs=CSV_LIBS, program
     elif shape == "ab":
         args["A"], args["B"] = names[0], names[1]
     else:
-        args[list_param or "InFieldNames"] = _shared_lists.setdefault(tuple(names), list(names))
+        args[list_param or "InFieldNames"] = list(names) if as_objects else _shared_lists.setdefault(tuple(names), list(names))
     if _calls["n"] % 2:
         args = dict(reversed(list(args.items())))      # the order in which arguments are written does not matter
     out = invoke(program, cls_name, "Res", args, via_run=_calls["n"] % 3 == 0)
